@@ -769,6 +769,17 @@ func (m *machine) userCleans() {
 		dirs = []string{m.upl}
 		m.s.Probe("clean-without-local-dir")
 	}
+	if t.Bool(1, 6) {
+		// one of the data directories is a symbolic link to a directory kept
+		// elsewhere (another disk): clean works on what the name leads to
+		d := dirs[t.Draw(len(dirs))]
+		target := filepath.Join(m.c.Dir, "elsewhere-"+filepath.Base(d))
+		if fi, err := os.Lstat(d); err == nil && fi.IsDir() && os.Rename(d, target) == nil {
+			os.Symlink(target, d)
+			defer func() { os.Remove(d); os.Rename(target, d) }()
+			m.s.Probe("clean-with-linked-data-directory")
+		}
+	}
 	foreign := []string{"notes.txt", "x.v1.count.bak", "y.jsonx", "z.v2.count", "json", ".json.swp", "v1.count", "report.JSON", "a.count", "upload.token",
 		"2024-01-08.json.lock", "stale.lock", "2024-01-08.json.tmp7", "local.2024-01-08.json.tmp3", "weekends.tmp1", "x.v1.count.tmp"}
 	exact := []string{"foreign.v1.count", "foreign.json", "local.foreign.json", ".v1.count", ".json"}
